@@ -15,6 +15,9 @@ def run(ck, progs):
     ck.rule("C14.5", "lp_init and lp_fini iterate exactly the thread's ownership range and run the per-LP init / fini once per iteration")
     ck.rule("C14.6", "each routing macro maps its range onto 0..parts-1: it is (x - start) * parts / total with exactly the parts/start/total its partition_start calls use")
     ck.rule("C14.7", "the LP table, indexed everywhere with global LP ids, holds n_lps_node entries and is shifted by the first hosted id after its allocation (and back before its release)")
+    ck.rule("C14.8", "lp_global_init and the head of lp_init, interpreted for 1..12 LPs x 1..4 ranks x 1..4 threads: the ranks' ranges tile "
+                     "0..lps-1, the threads' ranges tile their rank's range, and the routing macros send every identifier to its owner")
+    ck.rule("C14.9", "the product inside a routing macro is 64 bits wide at every expansion (no cast narrows the offset before it is multiplied)")
     for cfg, P in progs.items():
         R.check_monotone_routing(ck, P, "C14.1")
         R.check_bounds_from_routing(ck, P, "C14.2")
@@ -22,3 +25,5 @@ def run(ck, progs):
         R.check_lp_loops(ck, P, "C14.5")
         R.check_routing_range(ck, P, "C14.6")
         R.check_lp_table(ck, P, "C14.7")
+        R.check_ownership_tiling(ck, P, "C14.8")
+        R.check_routing_width(ck, P, "C14.9")
